@@ -177,6 +177,22 @@ CLAIMED.update({
         design="3/C14"),
 })
 
+CLAIMED.update({
+    "C31": dict(
+        engine="mir2smt",
+        technique="symbolic execution of the rustc MIR of erg_common::cheap_canonicalize_path over paths given as sequences of components with symbolic kinds; std::path is the "
+                  "environment, modelled by its documented contract and validated natively on every explored path; oracle = lexical resolution; counterexamples replayed natively",
+        category="other",
+        text="For every path of up to 4 (thorough: 6) components - each component's kind (root, `.`, `..`, name) a solver variable, subject to what std::path::Components can yield - "
+             "the function that NormalizedPathBuf::new rests on returns exactly the lexically resolved path: `.` and resolvable `..` are removed, `..` at the root stays at the root, "
+             "and a `..` with nothing to cancel is kept. Since that normal form is a fixed point of the same function and distinct files have distinct normal forms, normalisation is "
+             "idempotent, equal normal forms name the same file, and leading `..` components of relative paths are never discarded. normalize_path (verbatim-prefix stripping, "
+             "case folding on case-insensitive platforms), symbolic links and longer paths are outside.",
+        note="Trusts rustc's MIR dump, engines/mir2smt.py, z3 and the std::path contract model in props/c31.py; the model is checked on every run: every explored path is executed by the real "
+             "function (cargo test on the scratch copy) and must give the string the model predicts. A first attempt to decide the compiled code with Kani did not finish (DESIGN 0b).",
+        design="3/C31"),
+})
+
 NOT_APPLICABLE = {}
 
 
